@@ -6,7 +6,7 @@ From V.lib Require Import Base.
 From V.c09 Require Import C09Model C09Spec C09BaseProofs C09SttsProofs C09CttsProofs C09StscProofs C09TrakProofs C09TimeProofs C09CacheProofs.
 From V.c09 Require Import C09BuildModel C09BuildCttsProofs C09BuildStscProofs.
 From V.c09 Require Import C09ArithProofs C09PureModel C09PureProofs.
-From V.c09 Require Import C09TimeCodeModel C09TimeCodeProofs.
+From V.c09 Require Import C09TimeCodeModel C09TimeCodeProofs C09RowsModel C09RowsProofs.
 
 (* a concrete non-trivial consistent table set: 7 samples, 3 stts runs, ctts, 2 stsc entries over 3 chunks,
    explicit sizes, stco, stss, sdtp *)
@@ -392,3 +392,44 @@ Theorem C09_time_code_pinned_refuted :
     stts_get_time_code_pinned cs ds n ts <> Ok (S_time_code t ts).
 Proof. exact time_code_pinned_refuted. Qed.
 Print Assumptions C09_time_code_pinned_refuted.
+
+(* ================= C09_builder_consistent without raw_ok (C09RowsProofs.v) =================
+   raw_ok (no uint32 wrap in first chunk / samples per chunk / FirstSampleNr / number of rows) was a hypothesis of the
+   bridge although it follows from the shape of the table: rows_ok, first chunk 1, the runs holding N samples over C
+   chunks, N + 1 < 2^32 and C + 1 < 2^32 give every arithmetic clause of raw_ok (each run has >= 1 chunk of >= 1
+   sample, so samples per chunk <= N, FirstSampleNr <= N + 1, first chunks and the number of rows <= C).  What is left
+   is the type of the ids: non-zero uint32 (ids_ok; the Go parameters are uint32 and id 0 is refused). *)
+Theorem C09_raw_ok_from_shape : forall raw C n, is_u32 (C + 1) = true -> is_u32 (n + 1) = true ->
+  rows_ok raw C = true -> ids_ok raw = true ->
+  match raw with (fc, _, _) :: _ => fc = 1 | [] => False end ->
+  sumN (chunk_counts (S_entries raw) C) = n ->
+  raw_ok raw = true.
+Proof. exact raw_ok_of_rows. Qed.
+Print Assumptions C09_raw_ok_from_shape.
+
+Theorem C09_builder_consistent_rows : forall tb craw0 ccalls sraw0 sb0 scalls,
+  is_u32 (nsamples tb + 1) = true -> stts_ok tb = true -> stsz_ok tb = true -> offsets_ok tb = true ->
+  stss_ok tb = true -> sdtp_ok tb = true ->
+  (t_ctts tb = None \/
+   (t_ctts tb = Some (ctts_run (ctts_decode craw0) ccalls) /\
+    sumN (map fst (craw0 ++ ctts_table ccalls)) = nsamples tb)) ->
+  stsc_decode sraw0 = Ok sb0 ->
+  t_stsc tb = stsc_run sb0 scalls ->
+  ids_ok (stsc_table sraw0 scalls) = true -> rows_ok (stsc_table sraw0 scalls) (nchunks tb) = true ->
+  match stsc_table sraw0 scalls with (fc, _, _) :: _ => fc = 1 | [] => False end ->
+  sumN (chunk_counts (S_entries (stsc_table sraw0 scalls)) (nchunks tb)) = nsamples tb ->
+  consistent tb = true.
+Proof. exact builder_consistent_rows. Qed.
+Print Assumptions C09_builder_consistent_rows.
+(* the hypotheses are those of C09_builder_consistent with raw_ok weakened (raw_ok implies ids_ok), satisfied by the
+   histories of ex_histories; the wrap-around table of C09_stsc_cache_wrap_refuted (2^31 samples per chunk over 2
+   chunks) has ids_ok and rows_ok but more than 2^32 samples *)
+Theorem C09_raw_ok_ids : forall raw, raw_ok raw = true -> ids_ok raw = true.
+Proof. exact raw_ok_ids. Qed.
+Print Assumptions C09_raw_ok_ids.
+Example ex_rows :
+  ids_ok (stsc_table [] ex_stsc_calls) = true /\ is_u32 (nchunks ex_tb + 1) = true /\
+  ids_ok [(1, 2147483648, 1); (3, 1, 1)] = true /\ rows_ok [(1, 2147483648, 1); (3, 1, 1)] 3 = true /\
+  raw_ok [(1, 2147483648, 1); (3, 1, 1)] = false /\
+  sumN (chunk_counts (S_entries [(1, 2147483648, 1); (3, 1, 1)]) 3) = 4294967297.
+Proof. vm_compute. repeat split. Qed.
